@@ -281,7 +281,7 @@ def run_shard(ctx: Ctx) -> None:
                 "schema_text": text, "schema_pickle": pickle_b64(s), "gen": gen, "entry": entry,
                 "pre_files": pre_files, "missing_dir": missing_dir})
 
-    hyp_run(ctx, case(), body, ctx.n(1500, 25000))
+    hyp_run(ctx, case(), body, ctx.n(3000, 25000))
 
 
 def replay(c: Dict[str, Any]) -> Optional[str]:
